@@ -281,6 +281,9 @@ def check_scenario(repo, fi, mode, n_ap):
     else:
         for c, (i, what, x, y) in zip(got, want):
             tag = 'fit %d (%s), %s' % (i + 1, 'best' if i == 0 else 'worse', what)
+            if isinstance(c, Arr) and c.ndim == 2 and c.mask is None and c.dims[1] is not None and I.axis_len.get(c.dims[1]) == 2 and c.dims[0] is not None:
+                # an array of vertices with its two columns filled in: column 0 the wavelengths, column 1 the fluxes (what column_stack builds)
+                c = _Curve(Arr((c.dims[0],), alg.index_at(c.poly, c.dims[1], alg.Poly.const(0)), unit=c.unit), Arr((c.dims[0],), alg.index_at(c.poly, c.dims[1], alg.Poly.const(1)), unit=c.unit))
             if not isinstance(c, _Curve) or not isinstance(c.y, Arr) or not isinstance(y, Arr):
                 unknown.append('%s: curve %r / reference %r' % (tag, getattr(c, 'y', c), y))
                 continue
@@ -302,7 +305,9 @@ def check_scenario(repo, fi, mode, n_ap):
     cols = h.collections[0].colors
     if isinstance(cols, list) and len(cols) == len(got):
         bad = [c_ for c_ in cols if not (isinstance(c_, (tuple, list)) and len(c_) in (3, 4) and all(isinstance(v_, (int, float)) and 0 <= v_ <= 1 for v_ in c_))]
-        if bad:
+        if bad and any(isinstance(c_, Unk) for c_ in bad):
+            unknown.append('the colour given for a curve was not followed: %r' % (bad[0],))
+        elif bad:
             problems.append('the colour given for a curve is %r, not an RGB triple: the line collection cannot be drawn' % (bad[0],))
     elif cols is not None:
         (problems if isinstance(cols, list) else unknown).append('%s colours for %d curves' % (len(cols) if isinstance(cols, list) else repr(cols)[:40], len(got)))
